@@ -75,8 +75,10 @@ func (node *Node) processBlocks(ctx context.Context) error {
 			}
 
 			// The block was not added, so the last hash has to go back to the top of the chain or
-			// the headers that replace it will never link.
+			// the headers that replace it will never link. Its request is gone as well, so ask for
+			// headers again instead of waiting for the next announcement.
 			node.state.SetLastHash(*node.blocks.LastHash())
+			node.state.ClearInSync()
 		}
 		node.state.BlockProcessed()
 
